@@ -20,7 +20,7 @@ def run(prop, tier, seed, replay):
     common.proof_coverage(v, st, prop, TB)
     v.coverage.update(dict(
         evaluations=res["evals"], distinct_nontrivial=res["distinct"],
-        rule="from valid (basis, delta) pairs, 16 corruption operators (other/truncated/extended/bit-flipped basis; copy offset/length at 0, +-1, |basis|, 2^32-1, 2^63, 2^64-1; ops dropped/duplicated/reordered/retagged; literal edits; source_size/basis_size/block_size/checksum edits; consistent re-hash; far offsets with huge declared basis_size). Each through CopiaSync::patch (shipped + checked profile), AsyncCopiaSync::patch, and a sample through `copia patch` under ulimit -v. Outcome class and output bytes compared with the extracted model; independent oracle: Ok => BLAKE3(out) == delta.checksum. distinct_nontrivial = distinct hostile (basis, delta) pairs.",
+        rule="from valid (basis, delta) pairs, 16 corruption operators (other/truncated/extended/bit-flipped basis; copy offset/length at 0, +-1, |basis|, 2^32-1, 2^63, 2^64-1; ops dropped/duplicated/reordered/retagged; literal edits; source_size/basis_size/block_size/checksum edits; consistent re-hash; far offsets with huge declared basis_size). Each through CopiaSync::patch (shipped + checked profile), AsyncCopiaSync::patch, and a sample through `copia patch` under ulimit -v. Outcome class and output bytes compared with the extracted model; independent oracle: Ok => BLAKE3(out) == delta.checksum; a library call that does not return within 60 s ends the harness (watchdog) and is reported with its input as a hang. distinct_nontrivial = distinct hostile (basis, delta) pairs.",
         samples=res["samples"] or ["(none)"], distribution=res["stats"], disagreements=res["dis"]))
     v.assumptions = TB
     return v.finish()
